@@ -6,7 +6,8 @@
    mod_grad_axis / flip_grad_axis and "arguments are not modified" are checked on the implementation
    by harness/props/C18.py (object identity and aliasing are not expressible in the model). *)
 From Coq Require Import ZArith QArith Qabs List Bool.
-From PV Require Import Base.QUtil Base.Round Base.PWL Gen.GenGradOps Model.GradOps Proofs.GradOpsProofs.
+From PV Require Import Base.QUtil Base.Round Base.PWL Gen.GenGradOps Model.GradOps Proofs.GradOpsProofs
+  Proofs.SplitOffRaster.
 Import ListNotations.
 Open Scope Q_scope.
 
@@ -44,6 +45,58 @@ Theorem C18_split_sum : forall s t up flat down t',
    eval (to_pwl r (GExt down)) j2 == t_amp t /\ eval (to_pwl r (GTrap tr)) j2 == t_amp t).
 Proof. exact split3_sum. Qed.
 Print Assumptions C18_split_sum.
+
+(* off-raster input (the documented rounding then really changes the argument): the ramp-down part is
+   placed with the UNROUNDED total duration (split_gradient.py:50,79), so away from the junctions the
+   three parts miss the raster-rounded trapezoid by exactly the displacement of the ramp-down by
+   d = total - rounded total:   ramp(x - j2 - d) - ramp(x - j2),  ramp = [(0, amp); (fall', 0)] *)
+Theorem C18_split_discrepancy : forall s t up flat down t',
+  let r := raster s in
+  split_gradient s (GTrap t) = (OK (up, flat, down), t') ->
+  let tr := round_trap r t in
+  0 < t_rise tr -> 0 < t_flat tr -> 0 < t_fall tr ->
+  let j1 := t_delay tr + t_rise tr in
+  let j2 := j1 + t_flat tr in
+  let ramp := eval [(0, t_amp t); (t_fall tr, 0)] in
+  let d := split_total_shift r t in
+  forall x, ~ x == j1 -> ~ x == j2 ->
+    eval (to_pwl r (GExt up)) x + eval (to_pwl r (GExt flat)) x + eval (to_pwl r (GExt down)) x
+    - eval (to_pwl r (GTrap tr)) x == ramp (x - j2 - d) - ramp (x - j2).
+Proof. exact split3_discrepancy. Qed.
+Print Assumptions C18_split_discrepancy.
+
+(* the parts add up to the rounded trapezoid (at all non-junction times) IF AND ONLY IF the rounding
+   leaves the total duration unchanged (amplitude not zero) *)
+Theorem C18_split_adds_up_iff : forall s t up flat down t',
+  let r := raster s in
+  split_gradient s (GTrap t) = (OK (up, flat, down), t') ->
+  let tr := round_trap r t in
+  0 < t_rise tr -> 0 < t_flat tr -> 0 < t_fall tr -> ~ t_amp t == 0 ->
+  (split_total_shift r t == 0 <->
+   forall x, ~ x == t_delay tr + t_rise tr -> ~ x == t_delay tr + t_rise tr + t_flat tr ->
+     eval (to_pwl r (GExt up)) x + eval (to_pwl r (GExt flat)) x + eval (to_pwl r (GExt down)) x
+     == eval (to_pwl r (GTrap tr)) x).
+Proof.
+  intros s t up flat down t' r H tr Hr Hf Hl HA. split.
+  - intro Hd. exact (split3_adds_up_if s t up flat down t' H Hr Hf Hl Hd).
+  - intro Hall. destruct (Qeq_dec (split_total_shift r t) 0) as [E|E]; [exact E|exfalso].
+    destruct (split3_adds_up_only_if s t up flat down t' H Hr Hf Hl HA E) as (x & N1 & N2 & N3).
+    apply N3. apply Hall; assumption.
+Qed.
+Print Assumptions C18_split_adds_up_iff.
+
+(* witness: rise 23 us, flat 104 us, fall 23 us, delay 0 on a 10 us raster: accepted, rounded to
+   20/100/20 us, total 150 us vs rounded total 140 us: the ramp-down starts 10 us late *)
+Theorem C18_split_off_raster_refuted : exists s t up flat down t',
+  split_gradient s (GTrap t) = (OK (up, flat, down), t') /\
+  Qeq_bool (split_total_shift (raster s) t) (1 # 100000) = true /\
+  Qeq_bool (e_delay down) (13 # 100000) = true.
+Proof.
+  exists (mkSys (1 # 100000) 2000000 20000000000).
+  exists (mkTrap 0 100000 (23 # 1000000) (104 # 1000000) (23 # 1000000) 0 0 0 None).
+  eexists. eexists. eexists. eexists. split; [vm_compute; reflexivity|]. split; vm_compute; reflexivity.
+Qed.
+Print Assumptions C18_split_off_raster_refuted.
 
 (* on-raster values are fixed points of the raster rounding *)
 Theorem C18_raster_rounding_id : forall r x k, 0 < r -> x == inject_Z k * r -> to_raster r x == x.
